@@ -4,8 +4,10 @@
   All theorems are about `Reach cfg s` (states reachable by ANY label list of the model
   `Kopf.Model.C20_Lifecycle`) or about label lists themselves: no bound on length, on the number of
   ensemble tasks, workers, daemons, or on the moments of failures and stop requests.
-  `cfg.fixed = false` is the code as it is; `cfg.fixed = true` the variant with the edge
-  "failed ensemble task → orchestrator".
+  `cfg.fixed = true` is THE MODEL OF THE CURRENT TREE (since /repo 9ef1bcb the orchestrator monitors its
+  ensemble tasks; `Kopf/Tie/C20.lean` re-checks that against the source on every run); `cfg.fixed = false`
+  is the historical variant without the edge "failed ensemble task → orchestrator". Theorems that do not
+  mention `cfg.fixed` hold for both.
 -/
 import Kopf.Lemmas.C20_Trace
 namespace Kopf.C20
@@ -256,11 +258,11 @@ theorem worker_failure_reaches_watcher {cfg : Cfg} {s s' : State} (hr : Reach cf
       · rw [hs] at hend; cases hend
       · exact hs
 
-/-- FULL STATEMENT (false of the code for workers of ENSEMBLE watchers, see `stream_failure_lingers_witness`):
-      a failed worker stops the whole operator.
-    Proved for the workers of the root observers (CRDs, namespaces): their watcher IS a root task, so its
-    failure is a root failure — registered in `rootFailed` (hence re-raised, `reraise`) and fail-fast
-    (`root_failure_no_lingering`). -/
+/-- A failed worker of a ROOT observer (CRDs, namespaces) stops the whole operator: its watcher IS a root
+    task, so its failure is a root failure — registered in `rootFailed` (hence re-raised, `reraise`) and
+    fail-fast (`root_failure_no_lingering`). For the workers of the ENSEMBLE watchers the chain goes on through
+    `worker_failure_reaches_watcher` (the watcher ends failed) and `stream_failure_stops_all` (a failed ensemble
+    task stops the orchestrator). The name keeps `_partial` from the time when that second link was missing. -/
 theorem worker_failure_stops_all_partial {cfg : Cfg} {s : State} (hr : Reach cfg s) (r : Root)
     (hw : s.werr (.root r) = true) (he : (s.st (.root r)).ended = true) :
     s.st (.root r) = .failed ∧ s.rootFailed = true ∧
@@ -305,7 +307,8 @@ theorem exit_bound {cfg : Cfg} {s : State} (hr : Reach cfg s) (t : Nat) (ht : s.
 
 /-! ### The stream / worker failure clause -/
 
-/-- The model as the code is, with the default grace periods in ticks of 1/64 s. -/
+/-- HISTORICAL: the model of the code BEFORE /repo 9ef1bcb (no edge from the ensemble tasks to the
+    orchestrator), with the default grace periods in ticks of 1/64 s. -/
 def cfgAsIs : Cfg := { fixed := false, E := 128, W := 264, D := 0, C := 0, H := 320 }
 
 /-- startup succeeds, the orchestrator starts a resource watcher, its stream fails (fatal ERROR event →
@@ -316,10 +319,11 @@ def lingerPrefix : List Label :=
    .enter .admServer, .enter .resObserver, .enter .nsObserver, .enter .orchestrator, .subSpawn .watcher,
    .subStopping 0 true, .subEnd 0 .failed]
 
-/-- NEGATION of `stream_failure_stops_all` for the code as it is (finding F3): after a watcher task of the
-    ensemble has failed, ANY amount of time can pass with the operator still waiting, every root task alive,
-    nothing cancelled, no outcome. -/
-theorem stream_failure_lingers_witness (n : Nat) (hn : 0 < n) :
+/-- HISTORICAL WITNESS (finding F3, repaired by /repo 9ef1bcb) — about the OLD code, i.e. the variant
+    `fixed := false`, NOT about the current tree: there, after a watcher task of the ensemble had failed, ANY
+    amount of time could pass with the operator still waiting, every root task alive, nothing cancelled, no
+    outcome. Kept to show that the hypothesis `cfg.fixed = true` of `stream_failure_stops_all` is not decorative. -/
+theorem historical_stream_failure_lingers_witness (n : Nat) (hn : 0 < n) :
     ∃ s, run cfgAsIs init (lingerPrefix ++ [.delay n]) = some s
       ∧ s.st (.sub 0) = .failed ∧ s.rt = .waiting ∧ s.result = none ∧ s.now = n
       ∧ (∀ r, (s.st (.root r)).live = true) ∧ (∀ r, s.creq (.root r) = false) := by
@@ -333,8 +337,9 @@ theorem stream_failure_lingers_witness (n : Nat) (hn : 0 < n) :
   simp only [Option.bind_some, run]
   rw [quiet_delay hq hu (by simp [hw]) n hn]
 
-/-- FULL STATEMENT (false, see the witness above): a failed watch stream stops the whole operator.
-    Proved for the streams the root observers run themselves (CRD / namespace watch): such a task, once in its
+/-- A failed watch stream of a ROOT observer stops the whole operator (for the ensemble's streams see
+    `stream_failure_stops_all`; the name keeps `_partial` from the time when only this part held).
+    The streams the root observers run themselves (CRD / namespace watch): such a task, once in its
     `finally:` after a stream failure (`stopping true`), can only end FAILED, and that is a root failure:
     registered (`rootFailed`), fail-fast (no time passes while `run_tasks` waits). -/
 theorem stream_failure_stops_all_partial {cfg : Cfg} {s s' : State} (r : Root) (hk : r.kind = .observer)
@@ -358,14 +363,16 @@ theorem stream_failure_stops_all_partial {cfg : Cfg} {s s' : State} (r : Root) (
     · cases h
   · cases h
 
-/-- The FULL theorem for the model variant with the missing edge (`cfg.fixed = true`): a failed ensemble
-    task (watch stream, peering watch, keep-alive — or a watcher failed by its worker) cancels the running
-    orchestrator at once (no time passes), the orchestrator then can only end FAILED, i.e. a root failure:
-    everything is stopped (`root_failure_stops_all`), and `operator()` does not return normally. -/
+/-- THE CLAIM for the current tree (`cfg.fixed = true`): a failed ensemble task (watch stream, peering watch,
+    keep-alive — or a watcher failed by its worker; NOT a watcher whose resource is merely gone, HTTP 404)
+    cancels the running orchestrator at once (no time passes), the orchestrator then can only end FAILED,
+    i.e. a root failure: everything is stopped (`root_failure_stops_all`), and `operator()` does not return
+    normally. -/
 theorem stream_failure_stops_all {cfg : Cfg} (hfix : cfg.fixed = true) {s : State} (hr : Reach cfg s) :
-    (∀ i s', s.st (.root .orchestrator) = .running → step cfg s (.subEnd i .failed) = some s' →
+    (∀ i s', s.st (.root .orchestrator) = .running → s.gone i = false →
+        step cfg s (.subEnd i .failed) = some s' →
         s'.creq (.root .orchestrator) = true ∧ s'.orchErr = true ∧ ∀ n, step cfg s' (.delay n) = none)
-    ∧ (∀ i, i < s.nSubs → s.st (.sub i) = .failed → s.st (.root .orchestrator) = .running →
+    ∧ (∀ i, i < s.nSubs → s.st (.sub i) = .failed → s.gone i = false → s.st (.root .orchestrator) = .running →
         s.creq (.root .orchestrator) = true ∧ ∀ n, step cfg s (.delay n) = none)
     ∧ (s.orchErr = true → (s.st (.root .orchestrator)).ended = true → s.st (.root .orchestrator) = .failed)
     ∧ (s.orchErr = true → s.rt = .exited → s.result = some .raised ∨ s.result = some .cancelled) := by
@@ -383,7 +390,7 @@ theorem stream_failure_stops_all {cfg : Cfg} (hfix : cfg.fixed = true) {s : Stat
       simp [this]
     simp [step, hu]
   refine ⟨?_, ?_, ?_, ?_⟩
-  · intro i s' horch h
+  · intro i s' horch hgone h
     simp only [step] at h
     split at h
     · split at h
@@ -394,7 +401,7 @@ theorem stream_failure_stops_all {cfg : Cfg} (hfix : cfg.fixed = true) {s : Stat
             have := hg.1
             cases f <;> simp [failTS] at this ⊢
           subst hf
-          rw [if_pos ⟨hfix, rfl, horch⟩] at h
+          rw [if_pos ⟨hfix, rfl, hgone, horch⟩] at h
           cases h
           refine ⟨by simp, rfl, ?_⟩
           apply urgent_of
@@ -403,8 +410,8 @@ theorem stream_failure_stops_all {cfg : Cfg} (hfix : cfg.fixed = true) {s : Stat
         · cases h
       · cases h
     · cases h
-  · intro i hi hf horch
-    have hc := hE.fixedEdge hfix i hi hf horch
+  · intro i hi hf hgone horch
+    have hc := hE.fixedEdge hfix i hi hf hgone horch
     exact ⟨hc, urgent_of s horch hc⟩
   · intro he hend
     rcases (hE.orchErrJ he).2 with ⟨h1, _⟩ | h1 | h1
@@ -424,6 +431,29 @@ theorem stream_failure_stops_all {cfg : Cfg} (hfix : cfg.fixed = true) {s : Stat
     | raised => exact Or.inl hres
     | cancelled => exact Or.inr hres
     | returned => have := hC.resReturned hres; rw [hrf] at this; cases this
+
+/-- HTTP 404 is not a failure: a watcher whose resource is gone (`subGone`: e.g. its CRD was deleted) ends with
+    that exception, but the orchestrator is neither cancelled nor marked as failed by it; and as long as the
+    orchestrator runs, a new task can be spawned for the key (`terminate_redundancies` drops the keys of exited
+    tasks, the spawners start them again when the pair is still or again served). -/
+theorem gone_is_not_a_failure {cfg : Cfg} {s s' : State} (i : Nat) (hg : s.gone i = true)
+    (h : step cfg s (.subEnd i .failed) = some s') :
+    s'.creq (.root .orchestrator) = s.creq (.root .orchestrator) ∧ s'.orchErr = s.orchErr
+    ∧ s'.st (.root .orchestrator) = s.st (.root .orchestrator)
+    ∧ (s.st (.root .orchestrator) = .running → ∀ k, (step cfg s' (.subSpawn k)).isSome = true) := by
+  simp only [step] at h
+  split at h
+  · rename_i hne
+    split at h
+    · split at h
+      · rw [if_neg (by simp [hg])] at h
+        cases h
+        refine ⟨rfl, rfl, by simp, ?_⟩
+        intro horch k
+        simp [step, hne.1, horch]
+      · cases h
+    · cases h
+  · cases h
 
 /-! ### Non-vacuity: the hypotheses are met by non-trivial reachable states -/
 
@@ -472,6 +502,18 @@ example : ∃ s, run cfgDemo init
     ∧ s.werr (.root .resObserver) = true ∧ s.st (.root .resObserver) = .failed ∧ s.rt = .waiting
     ∧ urgent cfgDemo s = true :=
   ⟨_, rfl, by decide, by decide, by decide, by decide⟩
+
+/-- a watcher meets HTTP 404, its key-mate is cancelled as redundant, both are spawned anew (hypotheses of
+    `gone_is_not_a_failure`); nothing is escalated -/
+example : ∃ s, run { cfgAsIs with fixed := true } init
+    [.scStartupBegin, .scStartupEnd .none, .setStarted, .ready,
+     .enter .daemonKiller, .coreEnter, .enter .poster, .enter .admChain, .enter .admValidating, .enter .admMutating,
+     .enter .admServer, .enter .resObserver, .enter .nsObserver, .enter .orchestrator,
+     .subSpawn .peerWatcher, .subSpawn .pinger, .subGone 0, .subCancel 0, .subCancel 1, .subStopping 1 false,
+     .withdraw 1, .subEnd 1 .cancelled, .subEnd 0 .failed, .subSpawn .peerWatcher, .subSpawn .pinger, .delay 64] = some s
+    ∧ s.gone 0 = true ∧ s.st (.sub 0) = .failed ∧ s.st (.root .orchestrator) = .running
+    ∧ s.creq (.root .orchestrator) = false ∧ s.orchErr = false ∧ s.nSubs = 4 ∧ s.now = 64 :=
+  ⟨_, rfl, by decide, by decide, by decide, by decide, by decide, by decide, by decide⟩
 
 /-- the `fixed` variant on the witness prefix of F3: the orchestrator is cancelled by the failed watcher,
     time cannot pass (hypotheses of `stream_failure_stops_all`) -/
